@@ -387,9 +387,14 @@ def run(ctx):
 
     # ---- 5. server handler outputs -----------------------------------------------------
     from vf.props import c08
-    cases8 = [c for c in c08.gen_cases(ctx) if c["has_id"] and ctx.mine()]
+    all8 = list(c08.gen_cases(ctx))
+    cases8 = [c for c in all8 if c["has_id"] and ctx.mine()]
     if ctx.tier == "quick":
         cases8 = cases8[::3]
+    # whatever the handler answers to an id-less message (it should answer nothing) must still be a valid message
+    idless = [c for c in all8 if not c["has_id"] and c["method"] in ("tools/call", "resources/read", "tools/list", "ping",
+                                                                       "initialize", "custom/ok", "custom/raise")]
+    cases8 += [c for k, c in enumerate(idless) if k % max(1, ctx.shard[1]) == ctx.shard[0]]
 
     async def handler_batch(cs):
         srv = c08.build_server()
@@ -409,7 +414,8 @@ def run(ctx):
     for case, resp in outs:
         if resp is None:
             continue
-        check_emission(ctx, "ProtocolHandler.handle_message", resp, case, expect={"id": case["id"]})
+        check_emission(ctx, "ProtocolHandler.handle_message", resp, case,
+                       expect={"id": case["id"]} if case["has_id"] else None)
         ctx.record({"handler_case": case}, shape=None, cls="server_handler")
 
     # ---- 6. transports' wire forms ------------------------------------------------------
